@@ -5,7 +5,7 @@ from vp import val, coqrun, rustrun
 from vp.val import cN, cbool, clist, cpair
 from vp.util import VERIF
 
-MODEL_ENTRY = 'run_case_pre'
+MODEL_ENTRY = 'run_case'
 
 def be(n, k): return list(n.to_bytes(k, 'big'))
 
